@@ -15,6 +15,7 @@
 
 #define MAXTOK 256
 #define MAXDIMS 40
+static int g_lockstep = 0;    /* current op is executed by all ranks in lock-step */
 #define SENT 0xA5
 
 static int g_rank, g_np;
